@@ -241,6 +241,9 @@ def run(prog, rep, tier, cfg):
         rep.need('K10', 'timeout:penalty-is-full-collateral', has_atom(a, 'P:1') and not any(x[0] == 'OP' for x in a) and not has_atom(a, 'C:::div') and not has_atom(a, 'C:::mul'),
                  'the missed-activation penalty is the whole provider collateral', X.loc(CP))
     slash_burnt(prog, rep, X)
+    # ---- running totals (amounts, power, datacap) accumulated in loops keep their earlier contributions
+    X.accumulator_integrity('K12', 'running-totals', ['fil_actor_market'], 'running totals of amounts')
+
 
 
 def slash_burnt(prog, rep, X, prefix=''):
